@@ -19,7 +19,7 @@ import (
 //
 //	call <Method> <base hex> <ints|-> <floats|-> <opts|-> <data hex> <query hex> <status> <n> <d> <limiter 0|1|err>
 //
-// ints: id[,version]; floats: the four bbox values already formatted with %f; opts: at:<hex time>, limit:N, closed:N;
+// ints: id[,version]; floats: the four bbox values with seven decimals (the exact arguments); opts: at:<hex time>, limit:N, closed:N;
 // data: comma separated ids of a multi-fetch; query: url-escaped notes search text;
 // the fake server answers <status> with a body holding n elements of the endpoint's own kind and d of another.
 func init() {
@@ -497,7 +497,24 @@ func c20Exec(op string) (string, *Violation) {
 	case "Nodes", "Ways", "Relations":
 		wantItems = append(wantItems, strings.ToLower(name)+"="+data)
 	case "Map", "Notes":
-		wantItems = append(wantItems, fmt.Sprintf("bbox=%f,%f,%f,%f", fl[0], fl[1], fl[2], fl[3]))
+		// the box requested is the box given: OSM coordinates have seven decimals, and each value of the query
+		// must read back as the argument
+		f7 := func(x float64) string { return strconv.FormatFloat(x, 'f', 7, 64) }
+		wantItems = append(wantItems, "bbox="+f7(fl[0])+","+f7(fl[1])+","+f7(fl[2])+","+f7(fl[3]))
+		for _, it := range items {
+			if strings.HasPrefix(it, "bbox=") {
+				ps := strings.Split(strings.TrimPrefix(it, "bbox="), ",")
+				for k := 0; k < 4 && k < len(ps); k++ {
+					if v, err := strconv.ParseFloat(ps[k], 64); err != nil || v != fl[k] {
+						sig := "bbox-differs"
+						if ps[k] == strconv.FormatFloat(fl[k], 'f', 6, 64) {
+							sig = "bbox-six-decimals" // the recorded finding: %f keeps six decimals, OSM coordinates have seven
+						}
+						return viol(sig, "the request asks for bbox value %q where the argument is %s (query %q)", ps[k], f7(fl[k]), rawq)
+					}
+				}
+			}
+		}
 	case "NotesSearch":
 		wantItems = append(wantItems, "q="+url.QueryEscape(query))
 	case "ChangesetWithDiscussion":
@@ -550,8 +567,21 @@ func c20Gen(r *Rng, tier string, emit func(string)) {
 	idsPool := []int64{0, 1, 2, 7, 1234567, 1<<40 - 1, 9007199254740993}
 	times := []string{"2016-01-02T03:04:05Z", "2020-12-31T23:59:59Z", "1999-01-01T00:00:00Z"}
 	bbox := func() string {
-		a, b := float64(r.Intn(3600)-1800)/10, float64(r.Intn(1800)-900)/10
-		return fmt.Sprintf("%f,%f,%f,%f", a, b, a+float64(1+r.Intn(10))/8, b+float64(1+r.Intn(10))/8)
+		// seven decimals, the resolution of OSM coordinates; small boxes included
+		f7 := func(n int64) string { return strconv.FormatFloat(float64(n)/1e7, 'f', 7, 64) }
+		a, b := r.I64n(3600000000)-1800000000, r.I64n(1790000000)-895000000
+		w, h := int64(1+r.Intn(10))*1250000, int64(1+r.Intn(10))*1250000
+		if r.Chance(40) {
+			w, h = 1+r.I64n(5000), 1+r.I64n(5000)
+		}
+		// the seventh digit is never 5: %f's rounding of such a value depends on its binary representation
+		fix := func(n int64) int64 {
+			if n%10 == 5 || n%10 == -5 {
+				return n + 1
+			}
+			return n
+		}
+		return f7(fix(a)) + "," + f7(fix(b)) + "," + f7(fix(a+w)) + "," + f7(fix(b+h))
 	}
 	one := func(name string, status int) string {
 		doc := c20Docs[name]
